@@ -26,6 +26,7 @@ func freshRelayer(tag string, maxChains int) (string, []string, []string) {
 		p.Chains = append(p.Chains, rt.StrN(tag+".chain", 3)) // structured: byte-exact comparison, letter case included
 		p.Addresses = append(p.Addresses, rt.Str(tag+".addr"))
 	}
+	rt.Assume(p.ValidateBasic() == nil) // a registration is a governance proposal validated at submission (bech32 address, one address per chain)
 	return p.Address, p.Chains, p.Addresses
 }
 
